@@ -499,6 +499,34 @@ func init() {
 			for i, f := range feats {
 				fenc[i] = encFeature(f)
 			}
+			// selectors whose regexp contains '=' (a clause is split at its first '='), over features whose values contain '='
+			{
+				eqFeats := []gts.Feature{
+					{Key: "gene", Loc: gts.Range(0, 3), Props: gts.Props{{"a", "x=y"}}},
+					{Key: "gene", Loc: gts.Range(0, 3), Props: gts.Props{{"a", "y"}, {"a=x", "y"}}},
+					{Key: "CDS", Loc: gts.Range(0, 3), Props: gts.Props{{"b", "a=x", "=y"}}},
+					{Key: "gene", Loc: gts.Range(0, 3), Props: gts.Props{{"a", "x"}, {"b", "=", "y=x=y"}}},
+					{Key: "gene", Loc: gts.Range(0, 3), Props: gts.Props{{"a", "x"}}},
+				}
+				names := []string{"", "a", "b", "a=x"}
+				res := []string{"x=y", "=y", "=", "y=x=y", "a=x", "x", "y", "^=", "=$", "x=", ""}
+				for _, key := range []string{"", "gene"} {
+					for _, n1 := range names {
+						for _, r1 := range res {
+							sels := []string{key + "/" + n1 + "=" + r1}
+							for _, n2 := range []string{"a", "b"} {
+								sels = append(sels, key+"/"+n1+"="+r1+"/"+n2, key+"/"+n2+"/"+n1+"="+r1)
+							}
+							for _, sel := range sels {
+								_, judged := parseRefSelector(sel)
+								for _, f := range eqFeats {
+									eval(c19Case{Kind: "selector", Sel: sel, Feat: encFeature(f)}, judged, len(sel))
+								}
+							}
+						}
+					}
+				}
+			}
 			toks := []string{"gene", "CDS", "/", "=", "a", "b", "x", "y", ".", "*", "^", "$"}
 			maxT := 4
 			if r.Tier == "thorough" {
